@@ -299,6 +299,23 @@ theorem interpolateEdge_is_interp (l0 l1 X Y : M6 ℝ) (t : ℝ) :
   simp only [one_eq, sub_eq, mul_eq, add_eq, M6.mk.injEq]
   refine ⟨?_, ?_, ?_, ?_, ?_, ?_⟩ <;> ring
 
+/-- **serial and parallel paths agree.**  The donor-side loop of `ref_metric_interpolate` (whole-field transfer used
+    by `refmpi`: four zero-initialised rows, always four weights) computes exactly the interpolant of
+    `ref_metric_interpolate_node` (per-vertex path: `node_per` donors), for tet (4) and triangle (3) backgrounds -/
+theorem interpolateDonor_eq_node (bary : B4 ℝ) (l0 l1 l2 l3 : M6 ℝ) :
+    interpolateDonor 4 bary l0 l1 l2 l3 = interpolateNode 4 bary l0 l1 l2 l3 ∧
+    interpolateDonor 3 bary l0 l1 l2 l3 = interpolateNode 3 bary l0 l1 l2 l3 := by
+  constructor
+  · unfold interpolateDonor interpolateNode
+    split <;> simp
+  · unfold interpolateDonor interpolateNode
+    split
+    · rename_i w hc
+      simp only [beq_self_eq_true, if_true]
+      rw [logCombine4_eq, logCombine3_eq]
+      simp only [zero_eq, mul_zero, add_zero]
+    · rfl
+
 /-! ### non-vacuity -/
 
 /-- `logEuclid_uniform` on a concrete SPD metric diag(2,3,5) with weights (1/2, 1/4, 1/8, 1/8) -/
